@@ -4,6 +4,7 @@ import os
 
 from .. import tree
 from .. import pipeline as P
+from . import c11
 
 ID = 'C19'
 LEVEL = 'exploration'
@@ -111,12 +112,48 @@ def read_all(TFI, path, enc, prefix):
 
 
 def shards(tier):
-    return [('seq', i, NSHARDS) for i in range(NSHARDS)] + [('rules', i, NSHARDS) for i in range(NSHARDS)] + [('junk', 0, 1), ('cli', 0, 1)]
+    return [('seq', i, NSHARDS) for i in range(NSHARDS)] + [('rules', i, NSHARDS) for i in range(NSHARDS)] + [('junk', 0, 1), ('cli', 0, 1), ('long', 0, 1)]
 
 
 def bounds(tier):
     return {'pool': POOL, 'base_list_lines': '<= %d distinct runs, multiplicities 1..3' % (3 if tier == 'thorough' else 2),
             'encodings': ['utf-8', 'latin-1', 'cp1251'], 'junk_kinds': [j[0] for j in JUNK]}
+
+
+def run_long(tier, acc):
+    """Files longer than the reader's duplicate-detection window (100 000 passwords): the yielded sequence must not change at or after the
+    window, whichever encoding of the list is used (plain, $HEX, counted, a duplicate only beyond the window, junk beyond the window)."""
+    tree.use()
+    TFI = tree.imp('lib_trainer.trainer_file_input').TrainerFileInput
+    wd = tree.mkdtemp('pcfgmc-c19l-')
+    path = os.path.join(wd, 'long.txt')
+    n = 100012
+    base = ['p%06dx' % i for i in range(n - 4)] + ['late', 'late', ' tail ', 'p000001x']
+    forms = {
+        'plain LF': ('\n'.join(base) + '\n').encode(), 'plain CRLF': ('\r\n'.join(base) + '\r\n').encode(),
+        'last lines as $HEX': ('\n'.join(base[:-4] + [hexform(p_, 'utf-8') for p_ in base[-4:]]) + '\n').encode(),
+        'junk after the window': ('\n'.join(base[:-2] + ['ab\tcd', ''] + base[-2:]) + '\n').encode(),
+    }
+    counted = []
+    for w, k in c11.rle(base):
+        counted.append('%d %s' % (k, w))
+    forms['counted'] = ('\n'.join(counted) + '\n').encode()
+    for name, data in forms.items():
+        with open(path, 'wb') as f:
+            f.write(data)
+        acc.evals += 1
+        acc.nontrivial += 1
+        case = {'layer': 'long', 'form': name}
+        try:
+            got, npw, nerr = read_all(TFI, path, 'utf-8', name == 'counted')
+        except Exception as e:
+            acc.fail(case, 'reader raised %r on a %d-line file (%s)' % (e, n, name), 'long-raise')
+            continue
+        if got != base or npw != len(base):
+            k = next((i for i, (a, b) in enumerate(zip(got, base)) if a != b), min(len(got), len(base)))
+            acc.fail(case, '%d-line file (%s): %d passwords yielded (num_passwords %d), expected %d; first difference at line %d: %r vs %r'
+                     % (n, name, len(got), npw, len(base), k + 1, got[k:k + 1], base[k:k + 1]), 'long-sequence')
+    tree.rmtree(wd)
 
 
 def run_seq(shard, tier, acc):
@@ -345,11 +382,19 @@ def run_shard(shard, tier, acc):
         run_seq(shard, tier, acc)
     elif shard[0] == 'rules':
         run_rules(shard, tier, acc)
+    elif shard[0] == 'long':
+        run_long(tier, acc)
     else:
         run_junk(tier, acc)
 
 
 def replay(case):
+    if case.get('layer') == 'long':
+        from ..runner import Acc
+        acc = Acc()
+        run_long('quick', acc)
+        fs = [f for f in acc.failures if f['case'] == case]
+        return fs[0]['msg'] if fs else None
     if case.get('layer') == 'cli':
         from ..runner import Acc
         acc = Acc()
